@@ -328,13 +328,14 @@ impl Monitor for C01 {
             }
             // (e) dust bound without slashing / donation
             if !slashed && self.inflow_donated == 0 {
-                let allowance = 2 * pairs as u128 + n_claims as u128;
+                // "a few base units of rounding dust per batch and claim"
+                let allowance = 4 * pairs as u128 + 2 * n_claims as u128;
                 if arrived > claims_total + allowance {
                     out.violation(
                         P,
                         "e_dust_bound",
                         format!(
-                            "batches {:?}: arrived {} but claims only {} (shortfall {} > allowance {} = 2*{} pairs + {} claims)",
+                            "batches {:?}: arrived {} but claims only {} (shortfall {} > allowance {} = 4*{} pairs + 2*{} claims)",
                             group,
                             arrived,
                             claims_total,
